@@ -398,4 +398,66 @@ theorem ct_set (b : Bytes) (i : Nat) (v : UInt8) (hi : 6 ≤ i ∧ i < 22) :
   unfold cookieCt
   rw [hl, List.drop_set, if_pos (by omega)]
 
+
+end NtpVerif.KeySet
+
+namespace NtpVerif.KeySet
+variable {κ : Type}
+
+/-! ### a (re)loaded provider rotated further -/
+
+/-- a provider (e.g. one just loaded from a key file) rotated `r` more times, the random keys being
+    `fresh 0, fresh 1, …` -/
+def rotFrom (p : Provider κ) (fresh : Nat → κ) : Nat → Provider κ
+  | 0 => p
+  | r + 1 => (rotFrom p fresh r).rotate (fresh r)
+
+/-- all keys in order of becoming primary: the keys the provider started with, then the new ones -/
+def lineage (p : Provider κ) (fresh : Nat → κ) (r : Nat) : List κ :=
+  p.current.keys ++ (List.range r).map fresh
+
+theorem lineage_length (p : Provider κ) (fresh : Nat → κ) (r : Nat) :
+    (lineage p fresh r).length = p.current.keys.length + r := by simp [lineage]
+
+theorem lineage_succ (p : Provider κ) (fresh : Nat → κ) (r : Nat) :
+    lineage p fresh (r + 1) = lineage p fresh r ++ [fresh r] := by
+  simp [lineage, List.range_succ, List.append_assoc]
+
+/-- from the first rotation on, the key set is the newest `history + 1` keys of the lineage (all of them
+    while there are fewer), and the id offset has advanced by the number of keys dropped -/
+theorem rotFrom_state (p : Provider κ) (fresh : Nat → κ) (r : Nat) (hr : 1 ≤ r) :
+    (rotFrom p fresh r).history = p.history ∧
+    (rotFrom p fresh r).current.keys =
+      (lineage p fresh r).drop (p.current.keys.length + r - (p.history + 1)) ∧
+    (rotFrom p fresh r).current.idOffset =
+      (p.current.idOffset + (p.current.keys.length + r - (p.history + 1))) % M32 := by
+  induction r with
+  | zero => omega
+  | succ r ih =>
+    by_cases h0 : r = 0
+    · subst h0
+      simp only [rotFrom, Provider.rotate, lineage_succ]
+      refine ⟨trivial, ?_, ?_⟩
+      · have : lineage p fresh 0 = p.current.keys := by simp [lineage]
+        rw [this, List.drop_append_of_le_length (by omega)]
+        congr 2; omega
+      · have : p.current.keys.length + (0 + 1) - (p.history + 1) = p.current.keys.length - p.history := by omega
+        rw [this]; simp only [M32]; omega
+    · obtain ⟨i1, i2, i3⟩ := ih (by omega)
+      have hl : (rotFrom p fresh r).current.keys.length =
+          p.current.keys.length + r - (p.current.keys.length + r - (p.history + 1)) := by
+        rw [i2, List.length_drop, lineage_length]
+      simp only [rotFrom, Provider.rotate, i1, hl, i3, lineage_succ]
+      refine ⟨trivial, ?_, ?_⟩
+      · rw [i2, List.drop_drop, List.drop_append_of_le_length (by rw [lineage_length]; omega)]
+        congr 2; omega
+      · simp only [M32]; omega
+
+
+theorem rotFrom_primary (p : Provider κ) (fresh : Nat → κ) (r : Nat) (hr : 1 ≤ r) :
+    (rotFrom p fresh r).current.primary = (rotFrom p fresh r).current.keys.length % M32 - 1 := by
+  cases r with
+  | zero => omega
+  | succ r => rfl
+
 end NtpVerif.KeySet
